@@ -125,9 +125,12 @@ def stepLine (st : St) (toks : List String) : St :=
           let st := if mo == o then st else badCorr st s!"call {m} impl[{fmtObs o}] model[{fmtObs mo}]"
           let std := stdGateway d r.action
           let st := if std then st else note st s!"call {m}: gateway outside stdGateway"
-          let jr := callOk (offered d) r.action o
+          -- the judge uses the action the operation stands for (Spec table), not the one in the source
+          let postedS := kv rest "acts"
+          let posted := if postedS == "~" || postedS == "" then [] else (commaList postedS).map (·.toList)
+          let jr := callOk (offered d) (specAction m.toList) o && actionsOk m.toList posted
           let jt := o.na || (typeOk Gen.C20Igd.igdTuples r.ret (kv rest "rtype").toList && kv rest "val" == "ok")
-          let st := if jr then st else badJudge st s!"call {m} action {str r.action}: impl[{fmtObs o}] is not what the offered services allow"
+          let st := if jr then st else badJudge st s!"call {m} action {str (specAction m.toList)}: impl[{fmtObs o} posted={postedS}] is not what the offered services allow"
           if jt then st else badJudge st s!"call {m}: result rtype={kv rest "rtype"} val={kv rest "val"} declared {str r.ret}"
       | _, _ => badCorr st s!"call {m}: no profile device or unknown facade method (not in the generated table)"
   | ["callx", m, aliases, sentT, naT, excT] =>
@@ -156,7 +159,7 @@ def stepLine (st : St) (toks : List String) : St :=
           -- model: a getter whose route is none returns None without asking
           let availM := rows.map fun r => (route (ordOf st.order) Gen.C20Igd.igdServiceTypes d r).isSome
           -- judge: "available" = some offered service defines the action
-          let availJ := rows.map fun r => availSpec d r.action
+          let availJ := rows.map fun r => availSpec d (specAction r.method)
           match toReadings (mask availM rs), toReadings (mask availJ rs) with
           | some rm, some rj => { st with pending := some (t.toInt!, rm, rj) }
           | _, _ => badCorr st "sample: expected six readings and six getter rows"
